@@ -137,6 +137,7 @@ impl OpenOptions {
     /// Will panic if the pagesize the database is opened with is not the same as the pagesize it was created with.
     pub fn open<P: AsRef<Path>>(self, path: P) -> Result<DB> {
         let path: &Path = path.as_ref();
+        vpoint!("open:enter");
         let file = if !path.exists() {
             init_file(
                 path,
@@ -145,10 +146,13 @@ impl OpenOptions {
                 self.flags.direct_writes,
             )?
         } else {
+            vpoint!("open:existing");
             open_file(path, false, self.flags.direct_writes)?
         };
+        vpoint!("open:have_file");
 
         let db = DBInner::open(file, self.pagesize, self.flags)?;
+        vpoint!("open:done");
         Ok(DB {
             inner: Arc::new(db),
         })
@@ -244,8 +248,11 @@ pub(crate) struct DBInner {
 
 impl DBInner {
     pub(crate) fn open(file: File, pagesize: u64, flags: DBFlags) -> Result<DBInner> {
+        vpoint!("open:before_lock");
         file.lock_exclusive()?;
+        vpoint!("open:locked");
         let mmap = mmap(&file, flags.mmap_populate)?;
+        vpoint!("open:mapped", len = mmap.len());
         let mmap = Mutex::new(Arc::new(mmap));
         let db = DBInner {
             data: mmap,
@@ -261,6 +268,7 @@ impl DBInner {
 
         {
             let meta = db.meta()?;
+            vpoint!("open:meta", tx_id = meta.tx_id, slot = meta.meta_page, num_pages = meta.num_pages);
             let data = db.data.lock()?;
             let free_pages = Page::from_buf(&data, meta.freelist_page, pagesize).freelist();
 
@@ -273,11 +281,15 @@ impl DBInner {
     }
 
     pub(crate) fn resize(&self, file: &File, new_size: u64) -> Result<Arc<Mmap>> {
+        vpoint!("resize:enter", new_size = new_size);
         file.allocate(new_size)?;
+        vpoint!("resize:allocated", new_size = new_size);
         let _lock = self.mmap_lock.write()?;
+        vpoint!("resize:have_map_lock");
         let mut data = self.data.lock()?;
         let mmap = mmap(file, self.flags.mmap_populate)?;
         *data = Arc::new(mmap);
+        vpoint!("resize:remapped", len = data.len());
         Ok(data.clone())
     }
 
@@ -346,8 +358,11 @@ impl DBInner {
 }
 
 fn init_file(path: &Path, pagesize: u64, num_pages: usize, direct_write: bool) -> Result<File> {
+    vpoint!("init:enter");
     let mut file = open_file(path, true, direct_write)?;
+    vpoint!("init:created");
     file.allocate(pagesize * (num_pages as u64))?;
+    vpoint!("init:allocated");
     let mut buf = vec![0; (pagesize * 4) as usize];
     let mut get_page = |index: u64| {
         #[allow(clippy::cast_ptr_alignment)]
@@ -384,8 +399,10 @@ fn init_file(path: &Path, pagesize: u64, num_pages: usize, direct_write: bool) -
     p.count = 0;
 
     file.write_all(&buf[..])?;
+    vpoint!("init:written");
     file.flush()?;
     file.sync_all()?;
+    vpoint!("init:synced");
     Ok(file)
 }
 
